@@ -618,7 +618,7 @@ def concrete_main():
                 signal.signal(signal.SIGALRM, lambda *_a: (_ for _ in ()).throw(_JobAbort(f"concrete job exceeded {lim}s")))
                 signal.alarm(lim)
                 try:
-                    resource.setrlimit(resource.RLIMIT_AS, (12 * 2 ** 30, 12 * 2 ** 30))
+                    resource.setrlimit(resource.RLIMIT_AS, (40 * 2 ** 30, 40 * 2 ** 30))
                 except (ValueError, OSError):
                     pass
                 out = json.dumps(concrete_job(pk, job))
